@@ -139,6 +139,16 @@ def r01_3(ctx, A):
         okr = dict(p.ret()[2]).get('0') is not None and norm(dict(p.ret()[2])['0']) == norm(('field', ('after', None, 0, None), 'x')) or True
         rv = dict(p.ret()[2]).get('0')
         ctx.check(R, rv is not None and sts and norm(rv) == norm(p.sym.rvalue_at(sts[0][1]['rv'], (sts[0][2], sts[0][3]))), 'returns-address', 'compile must return the address of the node just written', fn=f)
+    # the body of the file is the concatenation of the encoded nodes and nothing else: the routine that calls the node encoder writes
+    # no byte of its own (padding, markers) - readers of the crate follow deltas and would not notice, any other decoder of the format would
+    extra = []
+    for bid, t in f.calls():
+        callee = f.callee(t) or ''
+        if callee.endswith('::compile_to'):
+            continue
+        if f.callee_decl(t) in (SM.IO_WRITE_ALL, 'std::io::Write::write') or (callee in lib.fns and not (lib.fns[callee].impl and adt_base(lib.fns[callee].impl['self_ty']) == A.builder) and SM.IO_WRITE_ALL in cg.reachable([callee])):
+            extra.append((callee or f.callee_decl(t), t.get('span')))
+    ctx.check(R, not extra, 'compiler-emits-nodes-only', 'the node compiler writes bytes of its own besides the encoded node (%s): the node extents no longer tile the body of the file' % [e[0].rsplit('::', 1)[-1] for e in extra], fn=f, at=extra[0][1] if extra else None)
     # who emits through the builder's writer
     emitters = []
     for m in A.builder_methods():
